@@ -74,7 +74,7 @@ pub fn spec(id: &str) -> Option<PropSpec> {
         },
         "C09" => PropSpec {
             id: "C09",
-            batches: vec![b("sat", 200_000, 6_000_000, false)],
+            batches: vec![b("sat", 150_000, 4_000_000, false)],
             rule: "one case = one seeded run: a random CNF (usually <= 6 variables and <= 8 clauses of <= 4 literals, one run in four up to 10 variables, 14 clauses and 8 literals per clause; incl. empty, unit, duplicate and tautological clauses) and a history of up to 50 (thorough: 120) decide/pop calls by 1-3 logical callers on one real SATSolver, including refused (UNSAT) decisions followed by more work. Distinct = distinct event-log hash. Non-trivial = at least one accepted decision on a non-empty CNF.",
             states_measure: "distinct solver hash values (= residual formulas) visited",
             probe_prefixes: &["Up", "SatHash"],
@@ -125,7 +125,7 @@ pub fn spec(id: &str) -> Option<PropSpec> {
         },
         "C10" => PropSpec {
             id: "C10",
-            batches: vec![b("query", 50_000, 1_500_000, false)],
+            batches: vec![b("query", 40_000, 1_200_000, false)],
             rule: "one case = one seeded run: a builder (BDD, compressed SDD, or top-down decision-DNNF over up to 3 CNFs) is populated by a short history so that handles share nodes (incl. sub-diagrams and complements), then 1-4 logical callers interleave up to 44 (thorough: 74) queries of different result types (wmc in Real / 3 finite fields / Rational / Complex / ExpectedUtility / Polynomial, evaluate, count_nodes, semantic_hash, cached_semantic_hash, bdd_fold, marginal_map, meu, bb, smooth, condition, condition_model), some repeated immediately; each answer is compared with the same query on a freshly built copy in a brand-new builder and all scratch slots of all nodes are inspected after every call. Distinct = distinct event-log hash. Non-trivial = at least 2 queries of at least 2 kinds on a non-constant diagram.",
             states_measure: "distinct sets of query kinds exercised in one run (per builder variant)",
             probe_prefixes: &["ScratchClear", "BddCond", "DnnfCond"],
